@@ -26,9 +26,9 @@ func main() {
 	dnsfix.Quiet(dir)
 
 	maxExtras := r.Pick(2, 3)
-	// real-database space of part 2 (see dbSpace): quick = all files of <=1 line + sets of 2 lines of a 7-line core;
-	// thorough = all sequences of <=2 lines + sets of 3 lines of the 8-line core
-	db := newDBSpace(r.Pick(1, 2), r.Pick(2, 3), r.Pick(7, 8))
+	// real-database space of part 2 (see dbSpace): quick = all files of <=1 line + sets of 2 lines of a 6-line core
+	// (41 files, 164 compiles); thorough = all sets of <=2 lines + sets of 3 lines of the 8-line core (382 files, 1528 compiles)
+	db := newDBSpace(r.Pick(1, 2), r.Pick(2, 3), r.Pick(6, 8))
 	kMem := r.Pick(3, 4)
 
 	// ---- part 1
@@ -93,7 +93,7 @@ func main() {
 	r.Set("preproc_database_core_alphabet", dbCore[:len(db.core)])
 	r.Set("preproc_database_rocksdb_compiles", 2*ps.dbPairs)
 
-	r.Set("rule", fmt.Sprintf("part 1: for each of the 17 line types, every vector of the core option lattice (each optional field absent / explicitly default / other value, separator ',' or ':', trailing empty fields trimmed or written) plus every vector with 1..%d fields carrying an edge value (escaped bytes, wildcard, upper case, trailing/doubled dot, root, IPv6 / IPv4-mapped, 0/1/max/overflow, escaped locations ...) over the all-absent, all-default and all-other contexts; each line decoded, re-serialised, re-decoded and compiled by the real codec under 4 configurations (v1/v2 keys x CDB-style/RocksDB-style codec) with a fresh codec per decode; failing vectors are minimised by resetting options to the base. part 2: real RocksDB (v1 and v2 keys) compiled before and after the real Codec.Preprocess and the raw dumps compared for every sequence without repetition of <=%d lines of the %d-line alphabet plus every set of <=%d lines (written in alphabet order) of its %d-line core (one %% line per map, the indented %% line, the SOA serial variants, one ordinary line); the same comparison on the parsed key/value stream (dnsdata.Parse with the compiler's codec) for every sequence of <=%d lines of the full alphabet. states = distinct lines + files; transitions = oracle evaluations (incl. minimisation); nontrivial = lines whose normal form differs from the input + files changed by preprocessing", maxExtras, db.kAll, len(palphabet), db.kCore, len(db.core), kMem))
+	r.Set("rule", fmt.Sprintf("part 1: for each of the 17 line types, every vector of the core option lattice (each optional field absent / explicitly default / other value, separator ',' or ':', trailing empty fields trimmed or written) plus every vector with 1..%d fields carrying an edge value (escaped bytes, wildcard, upper case, trailing/doubled dot, root, IPv6 / IPv4-mapped, 0/1/max/overflow, escaped locations ...) over the all-absent, all-default and all-other contexts; each line decoded, re-serialised, re-decoded and compiled by the real codec under 4 configurations (v1/v2 keys x CDB-style/RocksDB-style codec) with a fresh codec per decode; failing vectors are minimised by resetting options to the base. part 2: real RocksDB (v1 and v2 keys) compiled before and after the real Codec.Preprocess and the raw dumps compared for every set of <=%d lines of the %d-line alphabet plus every set of <=%d lines of its %d-line core, each set written once in alphabet order (one %% line per map, the indented %% line, the SOA serial variants, one ordinary line); the same comparison on the parsed key/value stream (dnsdata.Parse with the compiler's codec) for every sequence of <=%d lines of the full alphabet. states = distinct lines + files; transitions = oracle evaluations (incl. minimisation); nontrivial = lines whose normal form differs from the input + files changed by preprocessing", maxExtras, db.kAll, len(palphabet), db.kCore, len(db.core), kMem))
 	r.Assume = []string{
 		"well-formed = the field layouts of tinydns-data as implemented by dnsdata (docs/data_format.md), values drawn from the variant lists in lattice.go",
 		"the compiled meaning of a line includes the codec accumulator output (prefix sets / range points) of a codec that saw only that line",
